@@ -120,6 +120,25 @@ func run(r *core.Run) {
 	for i := 0; i < n; i++ {
 		kind := []string{"struct", "block"}[rd.Intn(2)]
 		side := []string{"left", "right"}[rd.Intn(2)]
+		if i%9 == 4 {
+			// spellings the configuration loader must reject (a loader that accepts them while the
+			// encryptor compares the raw string would mask the wrong side)
+			bad := []string{"Left", "LEFT", "Right", "RIGHT", "lef", "both"}[rd.Intn(6)]
+			r.Begin(fmt.Sprintf("badside-%s-%d", bad, i), true, "cfg:bad-side")
+			kvb := env.NewKV(rd, 1, 1)
+			v := rd.Bytes(12)
+			out := r.Do(fmt.Sprintf("C11.write block %s 4 %s %s %s %s", core.Hex([]byte("xxxx")), bad, kvb.Tokens(), core.Hex(v), core.Hex(env.Rnd(rd))))
+			if stored, ok := okBytes(out); ok {
+				// accepted: then it must at least behave as the side it names
+				none2 := &env.KV{NoPub: true, NoPrivs: true, NoSym: true, NoSyms: true}
+				got, _ := okBytes(r.Do(fmt.Sprintf("C11.read block %s 4 %s %s %s", core.Hex([]byte("xxxx")), bad, none2.Tokens(), core.Hex(stored))))
+				want := append(append([]byte{}, v[:4]...), []byte("xxxx")...)
+				if bad[0] == 'R' || bad[0] == 'r' {
+					want = append([]byte("xxxx"), v[8:]...)
+				}
+				r.Check(bytes.Equal(got, want), "mask-side-spelling", fmt.Sprintf("plaintext_side %q was accepted but the window shown is not the %s one", bad, bad))
+			}
+		}
 		l := 1 + rd.Intn(40)
 		if rd.Chance(10) {
 			l = 1 + rd.Intn(400)
